@@ -403,6 +403,14 @@ func EvalCheckConcept(cc *evalgen.ConceptCase, reported []EvalPair) []Mismatch {
 		return nil
 	}
 	sig := "concept-sum-too-low"
+	for _, c := range cc.Classes {
+		for _, m := range c.Methods {
+			if len(m.Words) > 0 && m.Words[0].Lookalike {
+				// some name begins with an ordinary word that itself begins with get/set (setup, getaway)
+				sig = "concept-sum-too-low-name-begins-with-get-or-set-word"
+			}
+		}
+	}
 	if sum > want {
 		sig = "concept-sum-too-high"
 		if sum == want+stops {
